@@ -526,9 +526,17 @@ pub fn cases(prop: &str, seed: u64, tier: &str) -> Vec<String> {
                 emit_big_queries(&mut qs, m.as_bytes(), &mut r, QuerySel { class: false, method: false, lines: true, params: false, all_lines: false, both_files: false });
                 let mut text = String::from("java.lang.RuntimeException: boom\n");
                 let mut nlines = 0;
+                let mut long_names = 0;
                 for q in qs.iter().step_by(5) {
                     let t: Vec<&str> = q.split(' ').collect();
                     let (c, mth) = (String::from_utf8_lossy(&unhex(t[1])).to_string(), String::from_utf8_lossy(&unhex(t[2])).to_string());
+                    // the text model is quadratic in the line length (13 s for a 16 KiB line): one very long name per mapping
+                    if c.len() + mth.len() > 2000 {
+                        long_names += 1;
+                        if long_names > 1 {
+                            continue;
+                        }
+                    }
                     text.push_str(&format!("    at {}.{}(SourceFile:{})\n", c, mth, t[3]));
                     nlines += 1;
                     if nlines % 40 == 0 {
@@ -562,6 +570,7 @@ pub fn cases(prop: &str, seed: u64, tier: &str) -> Vec<String> {
                 emit_big_queries(&mut qs, m.as_bytes(), &mut r, QuerySel { class: false, method: false, lines: true, params: false, all_lines: false, both_files: false });
                 let mut text = String::from("x.Unknown: boom\n");
                 let mut n = 0;
+                let mut long_names = 0;
                 // frames of the classes with the most queries (the heavy classes) first, then a sample of the rest
                 let mut per_class: std::collections::BTreeMap<String, usize> = std::collections::BTreeMap::new();
                 for q in &qs {
@@ -577,6 +586,12 @@ pub fn cases(prop: &str, seed: u64, tier: &str) -> Vec<String> {
                     let (c, mth) = (String::from_utf8_lossy(&unhex(t[1])).to_string(), String::from_utf8_lossy(&unhex(t[2])).to_string());
                     if c.chars().any(|x| x.is_whitespace() || x == '(' || x == ':') || mth.contains('.') {
                         continue;
+                    }
+                    if c.len() + mth.len() > 2000 {
+                        long_names += 1;
+                        if long_names > 1 {
+                            continue;
+                        }
                     }
                     text.push_str(&format!("    at {}.{}(SourceFile:{})\n", c, mth, t[3]));
                     n += 1;
